@@ -2,6 +2,7 @@ package main
 
 import (
 	"fmt"
+	"sort"
 	"strings"
 
 	"golang.org/x/tools/go/ssa"
@@ -188,4 +189,56 @@ func fromVarPath(v ssa.Value) bool {
 		}
 	}
 	return false
+}
+
+// c04RPCHeadersAreHeaders (R9): an RPC route's header matchers are evaluated on the request's headers, all of them.
+// RPC protocols (dubbo, dubbo-thrift, tars, bolt) publish everything a route can match on - service, method, ... - as
+// plain header fields. The HTTP flavour of the header matcher diverts some names (`method`) to request *variables* that
+// only the HTTP codecs set; installed on an RPC rule it makes a configured {service, method} route unmatchable (and drops
+// the diverted name from the fast index key). Clause: the matcher CreateRPCRule stores into RPCRouteRuleImpl.configHeaders
+// is built by a constructor whose concrete result type's Matches reads no request variable (no call of
+// mosn.io/pkg/variable.Get*) - it looks at the header map only.
+func c04RPCHeadersAreHeaders(c *Ctx, pkg string) {
+	n := 0
+	for _, fn := range c.PkgFuncs(pkg) {
+		for _, st := range storesToField(fn, "pkg/router.RPCRouteRuleImpl", "configHeaders", false) {
+			n++
+			key := funcKey(fn) + ":rpc-headers-are-headers"
+			call, ok := stripIface(st.Val).(*ssa.Call)
+			if !ok || call.Common().StaticCallee() == nil {
+				c.Fail("C04.R9", key, st.Pos(), "the header matcher of an RPC rule is not the direct result of a constructor of the package: what evaluates the configured headers cannot be identified")
+				continue
+			}
+			ctor := call.Common().StaticCallee()
+			var bad []string
+			types_ := map[string]bool{}
+			for _, rs := range returnSites(ctor, 0) {
+				mi, isMI := rs.val.(*ssa.MakeInterface)
+				if !isMI {
+					continue
+				}
+				t := mi.X.Type()
+				types_[shortTypeName(t)] = true
+				m := c.methodOf(t, "Matches")
+				if m == nil {
+					bad = append(bad, shortTypeName(t)+" has no Matches")
+					continue
+				}
+				m = unwrapPromoted(m)
+				for g := range staticReach([]*ssa.Function{m}, pkg) {
+					for _, cs := range callsIn(g, true, func(cc *ssa.CallCommon) bool {
+						cal := cc.StaticCallee()
+						return cal != nil && cal.Pkg != nil && cal.Pkg.Pkg.Path() == "mosn.io/pkg/variable" && strings.HasPrefix(cal.Name(), "Get")
+					}) {
+						bad = append(bad, shortTypeName(t)+".Matches reads a request variable at "+shortPos(c, cs.Instr.Pos()))
+					}
+				}
+			}
+			sort.Strings(bad)
+			c.Check("C04.R9", key, st.Pos(), len(bad) == 0 && len(types_) > 0, "built by "+ctor.Name()+": matches on the header map only", "the header matcher installed on RPC routes ("+ctor.Name()+") does not evaluate all configured headers on the request's header map ("+strings.Join(bad, "; ")+"): a header the HTTP convention diverts to a request variable (`method`) is never set by the RPC codecs, so the first matching route in configuration order is skipped and a later one - or none - is selected")
+		}
+	}
+	if n < 1 {
+		c.Unresolved("C04.R9", "the store to RPCRouteRuleImpl.configHeaders")
+	}
 }
